@@ -64,6 +64,14 @@ def cases(rng, hostile_frag):
                         exp.append((f"/data/lp/{nm}/cnt", "label", lg, fill(tmpl_l[lg])))
                         exp.append((f"/data/lp/{nm}/cnt", "hint", lg, fill(tmpl_h[lg])))
                 yield sheets, exp, f"loop-text|{len(langs)}langs|{'ref' if with_ref else 'plain'}|{n_choices}"
+    # language mismatches between the looped questions and the list: whatever is shown, it is text an author could have written - never a Python repr
+    for tl, cl in ((["en", "fr"], ["en"]), ([], ["en", "fr"]), (["en"], []), (["en", "fr"], ["fr", "de"])):
+        hl = [f"label::{lg}" for lg in tl] if tl else ["label"]
+        chl = [f"label::{lg}" for lg in cl] if cl else ["label"]
+        sheets = {"survey": (["type", "name"] + hl, [["begin loop over veh", "lp"] + ["Loop"] * len(hl), ["integer", "cnt"] + ["How many %(label)s (%(name)s)?"] * len(hl),
+                                                         ["end loop", None] + [None] * len(hl)]),
+                  "choices": (["list_name", "name", "type", "kind"] + chl, [["veh", "car", "road", "k1"] + [f"Car.{h[-2:]}" for h in chl], ["veh", "bus", "road", "k2"] + [f"Bus.{h[-2:]}" for h in chl]])}
+        yield sheets, [], f"loop-text|mismatch|{len(tl)}|{len(cl)}"
 
 
 def judge(sheets, exp):
@@ -76,6 +84,10 @@ def judge(sheets, exp):
     except xf.XFError as e:
         return o, [("loop-text:output-not-wellformed", str(e)[:200])]
     out = []
+    import re
+    m = re.search(r">([^<]*\{'[^'<]*': '[^<]*)<", o.xform)
+    if m:
+        out.append(("loop-text:python-repr-in-output", f"a Python dict repr is written into the form: {m.group(1)[:120]!r}"))
     ctl = {el.get("ref"): el for el in p.body.iter() if isinstance(el.tag, str) and el.get("ref")}
     for ref, kind, lang, want in exp:
         c = ctl.get(ref)
